@@ -511,6 +511,34 @@ func runC17(c *Ctx) {
 			}
 		}
 	}
+	// "no limit" (limit <= 0, what MaxReceiveMessageSizeOption(0) and the stream codecs' contract allow):
+	// a prefix that does not fit the platform integer must still be an error, small ones are read
+	for _, v := range vals {
+		if v > 1<<22 && v <= 1<<63-1 {
+			continue // would really allocate v bytes
+		}
+		prefix := protowire.AppendVarint(nil, v)
+		for _, limit := range []int{0, -1} {
+			for _, eofd := range []bool{false, true} {
+				wire := append(append([]byte{}, prefix...), []byte("abc")...)
+				cs := rnCase{codec: "proto", limit: limit, spare: []int{0, 16}[c.Rng.Intn(2)], wire: wire, sched: genSched(c, len(wire)), eofWithData: eofd}
+				out := runReadNext(cs)
+				in := fmt.Sprintf("size=%d limit=%d (no limit)", v, limit)
+				c.Eval("prefix-nolimit", in, true)
+				c.Class("prefix-nolimit:" + errClass(out.err))
+				switch {
+				case out.panicked:
+					c.SpecFail("prefix", in, "panic", "an error", "C17/proto/prefix-panic", "length prefix crashes the caller")
+				case out.n < 0 || out.n > len(out.dst):
+					c.SpecFail("prefix", in, fmt.Sprintf("n=%d len(dst)=%d err=%v", out.n, len(out.dst), out.err), "an error", "C17/proto/prefix-overflow", "length prefix too large for int is not reported as an error")
+				case v > 1<<63-1 && out.err == nil:
+					c.SpecFail("prefix", in, fmt.Sprintf("n=%d err=nil", out.n), "too-large error", "C17/proto/over-limit-accepted", "a length that does not fit the platform integer is returned as read")
+				case v <= 3 && (out.err != nil || out.n != int(v)):
+					c.SpecFail("prefix", in, fmt.Sprintf("n=%d err=%v", out.n, out.err), fmt.Sprintf("n=%d", v), "C17/proto/within-limit-refused", "a short message is refused although no limit is configured")
+				}
+			}
+		}
+	}
 	// malformed prefixes: 10 continuation bytes, 10th byte > 1
 	for _, p := range [][]byte{bytes.Repeat([]byte{0x80}, 10), bytes.Repeat([]byte{0xff}, 11), append(bytes.Repeat([]byte{0x80}, 9), 0x02), append(bytes.Repeat([]byte{0xff}, 9), 0x7f), append(bytes.Repeat([]byte{0x80}, 9), 0x01), {0x80}, {0xff, 0xff}} {
 		for _, eofd := range []bool{false, true} {
